@@ -519,7 +519,7 @@ enum { E_NOMIG_ATTR, E_NOMIG_SET, E_PLAIN, NE };
 static ABT_thread eu[NE];
 static int e_runs[NE], e_cb;
 static ABT_thread ms0, ms1;
-static ABT_sched sched0;
+static ABT_sched sched0, sched2p;
 
 static void e_cb_fn(ABT_thread t, void *arg)
 {
@@ -587,6 +587,11 @@ static void error_requests(void *arg)
                ABT_ERR_MIGRATION_TARGET, "rc_current_pool", w);
         EXPECT(ABT_thread_migrate_to_sched(eu[E_PLAIN], sched0),
                ABT_ERR_MIGRATION_TARGET, "rc_current_pool", w);
+        /* the unit's pool is the SECOND pool of the named scheduler (the
+         * migration pool it would hand out is another one) */
+        EXPECT(ABT_thread_migrate_to_sched(eu[E_PLAIN], sched2p),
+               ABT_ERR_MIGRATION_TARGET, "rc_current_pool",
+               "target scheduler has the unit's pool as its second pool");
     }
     abtmc_store(&reqs_done, 1);
 }
@@ -602,6 +607,15 @@ static void scenario_errors(void)
                               ABT_SCHED_CONFIG_NULL, &s1));
     OK(ABT_xstream_create(s1, &es1));
     OK(ABT_xstream_get_main_sched(es0, &sched0));
+    {
+        /* an unattached scheduler over {fresh pool, the units' pool} */
+        ABT_pool two[2];
+        OK(ABT_pool_create_basic(ABT_POOL_FIFO, ABT_POOL_ACCESS_MPMC, ABT_TRUE,
+                                 &two[0]));
+        two[1] = pool[PA];
+        OK(ABT_sched_create_basic(ABT_SCHED_BASIC, 2, two, ABT_SCHED_CONFIG_NULL,
+                                  &sched2p));
+    }
     ms0 = ABTI_ythread_get_handle(ABTI_sched_get_ptr(sched0)->p_ythread);
     ms1 = ABTI_ythread_get_handle(ABTI_sched_get_ptr(s1)->p_ythread);
 
@@ -646,6 +660,7 @@ static void scenario_errors(void)
     abtmc_check(e_cb == 0, "callback_count",
                 "%d callbacks although no migration was accepted", e_cb);
     abtmc_observe("rejected ok");
+    OK(ABT_sched_free(&sched2p));
     OK(ABT_xstream_join(es1));
     OK(ABT_xstream_free(&es1));
     OK(ABT_pool_free(&pool[PB]));
